@@ -221,6 +221,36 @@ func c12DistinctFormats(r *include.ResolvedJournal, sym string) int {
 	return len(seen)
 }
 
+func c12PayeeOf(tx ast.Transaction) string {
+	if tx.Payee != "" {
+		return tx.Payee
+	}
+	return tx.Description
+}
+
+// c12TemplateWinners: payee -> the file whose transactions supply the payee's posting template
+// when the tree is merged in FileOrder with the root journal last ("" = the root journal).
+func c12TemplateWinners(r *include.ResolvedJournal) map[string]string {
+	win := map[string]string{}
+	for _, p := range r.FileOrder {
+		if j := r.Files[p]; j != nil {
+			for _, tx := range j.Transactions {
+				if len(tx.Postings) > 0 {
+					win[c12PayeeOf(tx)] = p
+				}
+			}
+		}
+	}
+	if r.Primary != nil {
+		for _, tx := range r.Primary.Transactions {
+			if len(tx.Postings) > 0 {
+				win[c12PayeeOf(tx)] = ""
+			}
+		}
+	}
+	return win
+}
+
 // c12CompareWorkspaces: the incrementally maintained workspace against a fresh one.
 func c12CompareWorkspaces(inc, fresh *Workspace, dropped map[string]bool) {
 	zzverif.Assert(inc.RootJournalPath() == fresh.RootJournalPath(), "root journal differs from rebuild")
@@ -239,6 +269,15 @@ func c12CompareWorkspaces(inc, fresh *Workspace, dropped map[string]bool) {
 		oi := append([]string(nil), ri.FileOrder...)
 		sort.Strings(oi)
 		zzverif.Assert(hxSameStrings(oi, pi), "GetResolved().FileOrder is not a permutation of the file set")
+		// payee posting templates as the server derives them from the tree (analyzer:
+		// included files in FileOrder, a later file overwrites an earlier one, the root last):
+		// for every payee the same file must win as in a fresh workspace
+		wi, wf := c12TemplateWinners(ri), c12TemplateWinners(rf)
+		same := len(wi) == len(wf)
+		for payee, path := range wf {
+			same = same && wi[payee] == path
+		}
+		zzverif.Assert(same, "payee posting template taken from another file than after a rebuild (order of the included files)")
 	}
 
 	c12CompareSnapshots(inc.IndexSnapshot(), fresh.IndexSnapshot(), fresh.index.fileIndexes, dropped)
